@@ -373,10 +373,8 @@ func invoke(input OmegaInput) (output OmegaOutput) {
 			pvmLogger.Errorf("host-call function \"invoke\" decode register:%d error : %v", i-1, err)
 		}
 	}
-	// psi preprocess
-	tmpProgram := Program{
-		InstructionData: input.Addition.IntegratedPVMMap[n].ProgramCode,
-	}
+	// psi preprocess: Ψ runs deblob(m[n]_p), i.e. the code with its own bitmask and jump table
+	tmpProgram, deblobExit := DeBlobProgramCode(input.Addition.IntegratedPVMMap[n].ProgramCode)
 	tempMemory := input.Addition.IntegratedPVMMap[n].Memory
 	// wrap m[n]_p (program),  w (registers),  m[n]_u (memory),   g (gas) into NewHost
 	tempHost := NewHost(&tmpProgram, w, &tempMemory, Gas(g), HostCallArgs{}, nil)
@@ -384,7 +382,12 @@ func invoke(input OmegaInput) (output OmegaOutput) {
 	var c ExitReason
 	var pcPrime ProgramCounter
 
-	c, pcPrime = tempHost.Interpreter.SingleStepInvoke(input.Addition.IntegratedPVMMap[n].PC)
+	if deblobExit != ExitContinue {
+		// cannot happen for a machine created by the machine host call; Ψ of such a blob panics
+		c, pcPrime = ExitPanic, 0
+	} else {
+		c, pcPrime = tempHost.Interpreter.SingleStepInvoke(input.Addition.IntegratedPVMMap[n].PC)
+	}
 
 	// mu* = mu
 	encoder := types.NewEncoder()
